@@ -15,7 +15,12 @@
 // (sort.*, slices.Sort*, a method named Sort, or a function of these packages that passes that
 // parameter to a sort — computed as a fixpoint) is reached before any output call.
 //
-// Compared records carry the file, the function, the map type, the sink, `sorted` and `returned`
+// `total` = that sort is a total order: a sort by value (sort.Strings/Ints/Float64s, slices.Sort), one of
+// the three sorts whose comparators Props/C08.lean proves (SortTags, EdgeMap.Sort, Nodes.Sort), a function
+// that hands the parameter to such a sort, or — for a helper that returns the slice — such a sort in
+// every caller.  An `append` site with sorted ∧ total is order-irrelevant WHEREVER it sits and needs no
+// review; all other sites (custom comparator, unsorted, other kinds) are compared with the reviewed list.
+// Compared records carry the file, the function, the sink, `sorted`, `total` and `returned`
 // only — no local variable names, no line numbers, no callee names (those go into a comment) — so
 // that renaming locals, moving code or sorting with another routine does not change them.  The hand-reviewed expectation lives in
 // lean/PprofVerif/Spec/MapRangesExpected.lean; Props/C08.lean compares the two lists by `decide`.
@@ -126,8 +131,10 @@ func parseInto(fset *token.FileSet, path string) (*ast.File, error) {
 
 type mrSite struct {
 	file, fn, mapType, sink string
+	fnObj                   types.Object
 	sinkType                string // of an append sink; comment only (a rewrite may change the slice type)
 	sorted                  bool
+	total                   bool // sorted by a total order (value sort or a comparator proved in Props/C08.lean)
 	flows                   []string
 	line                    int
 	over                    string
@@ -180,8 +187,26 @@ func calleeName(info *types.Info, call *ast.CallExpr) string {
 	return "closure"
 }
 
-var sortPrims = map[string]bool{"sort.Strings": true, "sort.Ints": true, "sort.Float64s": true, "sort.Sort": true, "sort.Stable": true,
-	"sort.Slice": true, "sort.SliceStable": true, "slices.Sort": true, "slices.SortFunc": true, "slices.SortStableFunc": true}
+// Sorts by VALUE are total orders up to identical elements: the result does not depend on the input
+// order.  So are the three sorts whose comparators the translator (comparators.go) turns into data and
+// Props/C08.lean proves strict and total on identity: graph.SortTags, EdgeMap.Sort, Nodes.Sort.
+var totalSorts = map[string]bool{"sort.Strings": true, "sort.Ints": true, "sort.Float64s": true, "slices.Sort": true,
+	"internal/graph.SortTags": true, "(internal/graph.EdgeMap).Sort": true, "(internal/graph.Nodes).Sort": true}
+
+// Sorts with a caller-supplied comparator: whether the order is total has to be reviewed by hand.
+var customSorts = map[string]bool{"sort.Sort": true, "sort.Stable": true, "sort.Slice": true, "sort.SliceStable": true,
+	"slices.SortFunc": true, "slices.SortStableFunc": true}
+
+// flow markers: "SORT:" a total sort, "SORTC:" a sort with a custom comparator
+func sortStrength(name string, viaParam int) (marker string) {
+	switch {
+	case totalSorts[name] || viaParam == 2:
+		return "SORT:"
+	case customSorts[name] || viaParam == 1:
+		return "SORTC:"
+	}
+	return ""
+}
 
 func isOutputCallee(n string) bool {
 	return strings.HasPrefix(n, "fmt.Fprint") || strings.HasPrefix(n, "fmt.Print") || n == "io.WriteString" ||
@@ -259,7 +284,7 @@ type sortParam struct {
 // trackAfter walks the nodes of body positioned after `from` in source order, following aliases of
 // the objects in objs; it returns the callees that receive an alias (sort calls included), and
 // "return" when an alias is returned.
-func trackAfter(info *types.Info, body *ast.BlockStmt, from token.Pos, objs map[types.Object]bool, sorting map[sortParam]bool) (flows []string) {
+func trackAfter(info *types.Info, body *ast.BlockStmt, from token.Pos, objs map[types.Object]bool, sorting map[sortParam]int) (flows []string) {
 	add := func(s string) {
 		for _, f := range flows {
 			if f == s {
@@ -308,29 +333,29 @@ func trackAfter(info *types.Info, body *ast.BlockStmt, from token.Pos, objs map[
 				name := calleeName(info, x)
 				if name != "" {
 					hit := false
-					isSort := false
+					marker := ""
+					better := func(m string) {
+						if m == "SORT:" || (m == "SORTC:" && marker == "") {
+							marker = m
+						}
+					}
 					if sel, ok := x.Fun.(*ast.SelectorExpr); ok {
 						if _, isMethod := info.Selections[sel]; isMethod && mentions(info, sel.X, objs) {
 							hit = true
-							if sel.Sel.Name == "Sort" || sorting[sortParam{name, -1}] {
-								isSort = true
+							better(sortStrength(name, sorting[sortParam{name, -1}]))
+							if marker == "" && sel.Sel.Name == "Sort" {
+								marker = "SORTC:" // some other Sort method: comparator unknown
 							}
 						}
 					}
 					for i, a := range x.Args {
 						if mentions(info, a, objs) {
 							hit = true
-							if sortPrims[name] || sorting[sortParam{name, i}] {
-								isSort = true
-							}
+							better(sortStrength(name, sorting[sortParam{name, i}]))
 						}
 					}
 					if hit {
-						if isSort {
-							add("SORT:" + name)
-						} else {
-							add(name)
-						}
+						add(marker + name)
 					}
 				}
 			}
@@ -341,8 +366,8 @@ func trackAfter(info *types.Info, body *ast.BlockStmt, from token.Pos, objs map[
 }
 
 // sortingParams: which (function, parameter) pairs of these packages hand the parameter to a sort.
-func sortingParams(pkgs []*loadedPkg) map[sortParam]bool {
-	res := map[sortParam]bool{}
+func sortingParams(pkgs []*loadedPkg) map[sortParam]int {
+	res := map[sortParam]int{} // 1 = reaches a custom sort, 2 = reaches a total sort
 	for round := 0; round < 6; round++ {
 		changed := false
 		for _, p := range pkgs {
@@ -358,7 +383,7 @@ func sortingParams(pkgs []*loadedPkg) map[sortParam]bool {
 					}
 					name := shortName(fo.FullName())
 					check := func(id *ast.Ident, idx int) {
-						if id == nil || id.Name == "_" || res[sortParam{name, idx}] {
+						if id == nil || id.Name == "_" || res[sortParam{name, idx}] == 2 {
 							return
 						}
 						o := p.info.Defs[id]
@@ -372,9 +397,20 @@ func sortingParams(pkgs []*loadedPkg) map[sortParam]bool {
 							return
 						}
 						for _, fl := range trackAfter(p.info, fd.Body, fd.Body.Pos(), map[types.Object]bool{o: true}, res) {
+							st := 0
 							if strings.HasPrefix(fl, "SORT:") {
-								res[sortParam{name, idx}] = true
-								changed = true
+								st = 2
+							} else if strings.HasPrefix(fl, "SORTC:") {
+								st = 1
+								if totalSorts[name] { // the body of a verified sorter: its sort.Sort IS the verified order
+									st = 2
+								}
+							}
+							if st > 0 {
+								if st > res[sortParam{name, idx}] {
+									res[sortParam{name, idx}] = st
+									changed = true
+								}
 								return
 							}
 							if isOutputCallee(fl) {
@@ -405,6 +441,36 @@ func sortingParams(pkgs []*loadedPkg) map[sortParam]bool {
 	return res
 }
 
+// judgeFlows: is the first thing that happens to the slice a sort (before any output call), and is
+// that sort total?  inFn = the enclosing function (the body of a verified sorter sorts by its verified order).
+func judgeFlows(flows []string, inFn string) (sorted, total bool) {
+	for _, fl := range flows {
+		switch {
+		case strings.HasPrefix(fl, "SORT:"):
+			return true, true
+		case strings.HasPrefix(fl, "SORTC:"):
+			return true, totalSorts[inFn]
+		case isOutputCallee(fl):
+			return false, false
+		}
+	}
+	return false, false
+}
+
+// callsObj: does the call invoke exactly this function or method?
+func callsObj(info *types.Info, call *ast.CallExpr, obj types.Object) bool {
+	switch f := call.Fun.(type) {
+	case *ast.Ident:
+		return info.Uses[f] == obj
+	case *ast.SelectorExpr:
+		if sel, ok := info.Selections[f]; ok {
+			return sel.Obj() == obj
+		}
+		return info.Uses[f.Sel] == obj
+	}
+	return false
+}
+
 func funcDisplayName(fd *ast.FuncDecl) string {
 	if r := recvTypeName(fd); r != "" {
 		return r + "." + fd.Name.Name
@@ -431,6 +497,10 @@ func genMapRanges(e *Env) (string, error) {
 				fd, ok := d.(*ast.FuncDecl)
 				if !ok || fd.Body == nil {
 					continue
+				}
+				fnFull := ""
+				if fo, ok := p.info.Defs[fd.Name].(*types.Func); ok {
+					fnFull = fo.FullName()
 				}
 				ast.Inspect(fd.Body, func(n ast.Node) bool {
 					rs, ok := n.(*ast.RangeStmt)
@@ -510,17 +580,9 @@ func genMapRanges(e *Env) (string, error) {
 													}
 												}
 											}
-											idxSort, idxOut := -1, -1
-											for i, fl := range flows {
-												if strings.HasPrefix(fl, "SORT:") && idxSort < 0 {
-													idxSort = i
-												}
-												if isOutputCallee(fl) && idxOut < 0 {
-													idxOut = i
-												}
-											}
-											s.sorted = idxSort >= 0 && (idxOut < 0 || idxSort < idxOut)
+											s.sorted, s.total = judgeFlows(flows, shortName(fnFull))
 											s.flows = flows
+											s.fnObj = p.info.Defs[fd.Name]
 											emit(s)
 										}
 									}
@@ -579,6 +641,91 @@ func genMapRanges(e *Env) (string, error) {
 		}
 	}
 
+	// A helper that RETURNS the collected slice unsorted is as good as sorted if every caller (in these
+	// packages) hands the result to a total sort before any output.
+	for k := range sites {
+		st := &sites[k]
+		if st.sorted || st.fnObj == nil || !strings.HasPrefix(st.sink, "append") {
+			continue
+		}
+		ret := false
+		for _, f := range st.flows {
+			if f == "return" {
+				ret = true
+			}
+		}
+		if !ret {
+			continue
+		}
+		ncalls, allTotal := 0, true
+		for _, p := range pkgs {
+			for _, f := range p.files {
+				for _, d := range f.Decls {
+					fd, ok := d.(*ast.FuncDecl)
+					if !ok || fd.Body == nil {
+						continue
+					}
+					caller := ""
+					if fo, ok := p.info.Defs[fd.Name].(*types.Func); ok {
+						caller = shortName(fo.FullName())
+					}
+					ast.Inspect(fd.Body, func(n ast.Node) bool {
+						as, ok := n.(*ast.AssignStmt)
+						if ok {
+							for i, r := range as.Rhs {
+								call, ok := r.(*ast.CallExpr)
+								if !ok || !callsObj(p.info, call, st.fnObj) {
+									continue
+								}
+								ncalls++
+								good := false
+								if len(as.Lhs) == len(as.Rhs) {
+									if id := baseIdent(as.Lhs[i]); id != nil {
+										var o types.Object
+										if o = p.info.Defs[id]; o == nil {
+											o = p.info.Uses[id]
+										}
+										if o != nil {
+											_, good = judgeFlows(trackAfter(p.info, fd.Body, as.End(), map[types.Object]bool{o: true}, sorting), caller)
+										}
+									}
+								}
+								if !good {
+									allTotal = false
+								}
+							}
+							return true
+						}
+						// any other use of the call (argument, return value, …)
+						if call, ok := n.(*ast.CallExpr); ok {
+							for i, a := range call.Args {
+								if inner, ok := a.(*ast.CallExpr); ok && callsObj(p.info, inner, st.fnObj) {
+									ncalls++
+									if sortStrength(calleeName(p.info, call), sorting[sortParam{calleeName(p.info, call), i}]) != "SORT:" {
+										allTotal = false
+									}
+								}
+							}
+						}
+						if r, ok := n.(*ast.ReturnStmt); ok {
+							for _, e := range r.Results {
+								if inner, ok := e.(*ast.CallExpr); ok && callsObj(p.info, inner, st.fnObj) {
+									ncalls++
+									allTotal = false // handed on unsorted once more: needs review
+								}
+							}
+						}
+						return true
+					})
+				}
+			}
+		}
+		if ncalls > 0 && allTotal {
+			st.sorted, st.total = true, true
+			st.flows = append(st.flows, "SORT: in every caller")
+		}
+	}
+
 	var b strings.Builder
 	b.WriteString("import PprofVerif.Model.MapRange\n")
 	b.WriteString("/-! REGENERATED by tools/extract (mapranges.go) on every `bin/check C08` — do not edit.\n")
@@ -595,13 +742,13 @@ func genMapRanges(e *Env) (string, error) {
 				returned = true
 			}
 		}
-		fmt.Fprintf(&b, "  -- line %d: range %s   %s   then: %s\n", s.line, strings.Join(strings.Fields(s.over), " "), s.sinkType, strings.Join(s.flows, ", "))
+		fmt.Fprintf(&b, "  -- line %d: range %s (%s)   %s   then: %s\n", s.line, strings.Join(strings.Fields(s.over), " "), s.mapType, s.sinkType, strings.Join(s.flows, ", "))
 		kind := s.sink
 		if i := strings.IndexAny(kind, ": "); i >= 0 {
 			kind = kind[:i]
 		}
-		fmt.Fprintf(&b, "  { file := %s, fn := %s, mapType := %s, kind := .%s, sink := %s, sorted := %v, returned := %v }%s\n",
-			leanStr(s.file), leanStr(s.fn), leanStr(s.mapType), kind, leanStr(s.sink), s.sorted, returned, sep)
+		fmt.Fprintf(&b, "  { file := %s, fn := %s, kind := .%s, sink := %s, sorted := %v, total := %v, returned := %v }%s\n",
+			leanStr(s.file), leanStr(s.fn), kind, leanStr(s.sink), s.sorted, s.total, returned, sep)
 	}
 	b.WriteString("]\n\nend PV.Gen.MapRanges\n")
 	return b.String(), nil
